@@ -70,7 +70,10 @@ impl AtomicUsize {
 impl Deref for AtomicUsize {
     type Target = std::sync::atomic::AtomicUsize;
 
+    #[cfg_attr(may_verif, track_caller)]
     fn deref(&self) -> &Self::Target {
+        #[cfg(may_verif)]
+        crate::verif::point();
         // safety: it is always safe to access `&self` fns on the inner value as
         // we never perform unsafe mutations.
         unsafe { &*self.inner.get() }
@@ -110,7 +113,10 @@ impl<T> AtomicPtr<T> {
 impl<T> Deref for AtomicPtr<T> {
     type Target = std::sync::atomic::AtomicPtr<T>;
 
+    #[cfg_attr(may_verif, track_caller)]
     fn deref(&self) -> &Self::Target {
+        #[cfg(may_verif)]
+        crate::verif::point();
         // safety: it is always safe to access `&self` fns on the inner value as
         // we never perform unsafe mutations.
         unsafe { &*self.inner.get() }
